@@ -30,7 +30,7 @@ CLAIMED["C03"] = dict(
         "(known finding). (2) Whole types: C03_reparse_returns_the_result / C03_reparse_call / C03_reparse_nested — for every type of "
         "the fragment `stable` (Spec/Stable.v: builtin classes, data classes, unions | and ^ of those, negations, constrained scalars "
         "and Optional-style rules over a stable origin, list / set / frozenset / variable-length tuple of stable element types, "
-        "fixed-length Tuple[T1..Tn] and Dict[K, V] of stable types, checking constraints), every input, every options record with the 'throw' policies and every nesting level, parsing the "
+        "fixed-length Tuple[T1..Tn] and Dict[K, V] of stable types, checking constraints, `contains` on containers), every input, every options record with the 'throw' policies and every nesting level, parsing the "
         "result again returns exactly that result and leaves the context untouched, with no assumption on the result (an earlier version had to assume away the bool-for-int leak of int([True]); it showed up as a "
         "C15 violation and was repaired in /repo: dd6794a); C03_results_are_typed derives the exact classes of "
         "results from the first parse (by induction on the knot of the parse calculus, three stages of unions and set rebuilding "
